@@ -23,12 +23,12 @@ RULE = ('class shapes: inheritance chains of depth 1-3 with auto_persist at some
 RULE += ('; also: members declared from the persist() hook or saved manually, ancestors saved before / after, futures resolved with a Savable, a shadowing class, a class name rebound after the first save, load and save contexts reused across saves')
 ASSUMPTIONS = ['custom loaders are constructible without arguments (the saved state records the loader class)', 'exceptions compare by type and args']
 REQUIRED = ['roundtrips', 'kinds/plain', 'kinds/method', 'kinds/savable', 'kinds/future', 'future_states/pending', 'future_states/result',
-            'future_states/exception', 'future_states/cancelled', 'future_states/result-savable', 'manually_saved', 'hook_declared', 'loader/default', 'loader/global', 'loader/persave', 'loader/unknown', 'loader/ctxreuse',
+            'future_states/exception', 'future_states/exception-falsy', 'future_states/cancelled', 'future_states/result-savable', 'manually_saved', 'hook_declared', 'loader/default', 'loader/global', 'loader/persave', 'loader/unknown', 'loader/ctxreuse',
             'mutation_probes', 'inherited_checks', 'rebound_name_probes', 'second_saves_same_context']
 BOUNDS = {'quick': '150 shapes x 4 loader modes', 'thorough': '3000 shapes x 4 loader modes'}
 
 PLAIN_VALUES = [1, 's', None, [1, [2, 3]], {'k': [1, 2], 'd': {'e': 5}}, (1, 2), [], {}, ('run', [10, 20], {'depth': 1}), {'t': ([1], 2)}]
-FSTATES = ['pending', 'result', 'exception', 'cancelled', 'result-savable']
+FSTATES = ['pending', 'result', 'exception', 'cancelled', 'result-savable', 'exception-falsy']
 
 
 class CountingLoader(loaders.ObjectLoader):
@@ -197,6 +197,9 @@ def make_value(owner, desc):
         elif desc[1] == 'exception':
             fut.set_exception(ValueError('fut-exc', repr(desc[2])))
             fut.exception()  # mark retrieved
+        elif desc[1] == 'exception-falsy':
+            fut.set_exception(FalsyError('fut-exc-falsy'))  # an exception object that is falsy (it has a length, and is empty)
+            fut.exception()
         elif desc[1] == 'cancelled':
             fut.cancel()
         return fut
@@ -232,6 +235,14 @@ def _mutate_value(val):
         for item in val:
             n += _mutate_value(item)
     return n
+
+
+class FalsyError(Exception):
+    def __len__(self):
+        return 0
+
+
+generated.register(FalsyError, 'FalsyError')
 
 
 @auto_persist('v')
@@ -282,7 +293,8 @@ def compare(orig_desc_shape, new, path, obs, viol, V):
         elif kind == 'future':
             obs['future_states'][desc[1]] = obs['future_states'].get(desc[1], 0) + 1
             exp = {'pending': ['pending'], 'cancelled': ['cancelled'], 'result': ['result', desc[2]], 'result-savable': None,
-                   'exception': ['exception', 'ValueError', ['fut-exc', repr(desc[2])]]}[desc[1]]
+                   'exception': ['exception', 'ValueError', ['fut-exc', repr(desc[2])]],
+                   'exception-falsy': ['exception', 'FalsyError', ['fut-exc-falsy']]}[desc[1]]
             if not isinstance(val, SavableFuture):
                 viol.append(V('future-type', 'future-type', 'member %s is %r' % (where, val)))
             elif desc[1] == 'result-savable':
